@@ -93,7 +93,11 @@ def impl(case):
     if case.get('upper') and isinstance(B, str):
         B = B.upper()
     f = calendar().drange if case.get('via') == 'calendar' else drange
+    if case.get('dirty_cal'):      # the program reconfigured the DEFAULT calendar earlier: drange must still list plain weekdays
+        calendar(holidays=[us2dt(h) for h in case['dirty_cal']], weekend=[4, 5])
     st, r = call(f, endpoint(t0, case.get('ep0')), endpoint(t1, case.get('ep1')), B)
+    if case.get('dirty_cal'):
+        calendar(holidays=[], weekend=[5, 6])      # restore the default for the following cases
     obs = [dt2us(x) for x in r] if st == 'ok' else ['ERR', st]
     viol = None
     exp = expected_list(t0, t1, b)
@@ -130,7 +134,7 @@ def nontrivial(case, result):
 def shape(case):
     b = case['bump']
     d = 'fwd' if case['t0'] < case['t1'] else 'bwd' if case['t0'] > case['t1'] else 'eq'
-    d += ('/ep' if case.get('ep0') else '') + ('/cal' if case.get('via') else '') + ('/upper' if case.get('upper') else '')
+    d += ('/dirtycal' if case.get('dirty_cal') else '') + ('/ep' if case.get('ep0') else '') + ('/cal' if case.get('via') else '') + ('/upper' if case.get('upper') else '')
     if b is None: return 'none/' + d
     if 'str' not in b: return list(b)[0] + '/' + d
     toks = tokens(b['str'])
@@ -197,6 +201,7 @@ def gen_cases(rng, tier):
         parts = rng.choice([[('m', 1), ('d', 0)], [('y', 1), ('m', -3)], [('w', 1), ('d', 2)], [('d', 1), ('h', 12)], [('m', 1), ('w', 1)],
                             [('b', 5), ('d', 2)], [('q', 1), ('m', 1)], [('d', 3), ('b', 1)], [('w', 2), ('d', -1)],
                             # leading part opposes the net direction (the guard must look at the whole bump)
+                            [('h', 1), ('n', 30)], [('n', 90), ('s', 15)], [('h', 12), ('s', -1)], [('s', 1), ('n', 1)], [('h', 1), ('d', 1)],
                             [('d', -1), ('w', 1)], [('d', 1), ('m', -1)], [('d', -2), ('m', 1)], [('w', -1), ('m', 1)], [('d', -3), ('w', 1), ('d', 1)]])
         sign = rng.choice([1, -1])
         s = ''.join('%d%s' % (sign * k if k else 0, u) for u, k in parts)
@@ -204,8 +209,27 @@ def gen_cases(rng, tier):
             # keep the day of month stable: month parts first, from a day <= 28 (the start is)
             pass
         t0 = a * DAYUS; t1 = (a + span) * DAYUS
+        if all(u in 'hns' for u, _ in parts):
+            # intraday compound: keep the list short (a span of at most a few hundred steps, not of months)
+            step = abs(sum({'h': 3600, 'n': 60, 's': 1}[u] * k for u, k in parts)) or 1
+            t0 = a * DAYUS + rng.randrange(86400) * 1000000
+            t1 = t0 + (step * rng.randrange(0, 200) + rng.randrange(0, step)) * 1000000
+        elif any(u in 'hns' for u, _ in parts):
+            t1 = t0 + (min(span, 120)) * DAYUS
         if rng.random() < 0.5: t0, t1 = t1, t0
         add(t0, t1, {'str': s})
+    # never generate a range of more than ~5000 elements (oracle and model are bounded; a runaway case costs minutes)
+    kept = []
+    for c in cases:
+        b = c['bump'] if c['bump'] is not None else {'int': 1}
+        try:
+            T0 = us2dt(c['t0']); nxt = step_fn(b)(T0)
+            stepus = abs(dt2us(nxt) - c['t0'])
+        except Exception:
+            stepus = DAYUS
+        if stepus == 0 or abs(c['t1'] - c['t0']) // stepus <= 5000:
+            kept.append(c)
+    cases = kept
     for c in cases:                # other spellings of the same call (endpoint resolution, Calendar.drange for non-b bumps, upper case)
         b = c['bump']; r = rng.random()
         isb = b is not None and 'str' in b and b['str'].lower().endswith('b')    # Calendar.drange reads any string ending in 'b' as '<int>b' (C05's business-day path)
@@ -217,6 +241,9 @@ def gen_cases(rng, tier):
             c['via'] = 'calendar'
         elif r < 0.4 and b is not None and 'str' in b:
             c['upper'] = 1
+        elif r < 0.6 and isb and c.get('via') != 'calendar':
+            lo, hi = min(c['t0'], c['t1']), max(c['t0'], c['t1'])
+            c['dirty_cal'] = [lo - lo % DAYUS + k * DAYUS for k in range(0, min(10, (hi - lo) // DAYUS + 1), 2)]
     return cases
 
 def shrink(case):
